@@ -161,6 +161,8 @@ type rewriter struct {
 	tmpN     int
 	external bool
 	pkgPath  string
+	dropMaps bool // a maps.X call was rewritten: the import may have become unused
+	mapsName string
 }
 
 // externalHook is added (virtually) to rewritten packages outside the main module, which
@@ -219,6 +221,14 @@ func (r *rewriter) run() bool {
 	r.file.Decls = r.rewriteDecls(r.file.Decls)
 	if r.needV {
 		addImport(r.file, "vsched_", shimBase+"/vsched")
+	}
+	if r.dropMaps {
+		// keep the "maps" import used: var _ = maps.Clone[map[int]int]
+		r.file.Decls = append(r.file.Decls, &ast.GenDecl{Tok: token.VAR, Specs: []ast.Spec{&ast.ValueSpec{
+			Names: []*ast.Ident{ast.NewIdent("_")},
+			Values: []ast.Expr{&ast.IndexExpr{X: &ast.SelectorExpr{X: ast.NewIdent(r.mapsName), Sel: ast.NewIdent("Clone")},
+				Index: &ast.MapType{Key: ast.NewIdent("int"), Value: ast.NewIdent("int")}}},
+		}}})
 	}
 	return r.changed
 }
@@ -288,6 +298,26 @@ func (r *rewriter) walk(n ast.Node, _ bool) {
 						if c, ok := tv.Type.Underlying().(*types.Chan); ok && c.Dir() == types.SendRecv {
 							x.Fun = r.vs("Close")
 							r.site(x, "chan.close")
+						}
+					}
+				}
+			}
+			// maps.Keys / maps.Values / maps.All (standard library iterators over a Go map)
+			if sel, ok := x.Fun.(*ast.SelectorExpr); ok && !r.external && len(x.Args) == 1 {
+				if id, ok := sel.X.(*ast.Ident); ok {
+					if pn, ok := r.info.Uses[id].(*types.PkgName); ok && pn.Imported().Path() == "maps" {
+						if tv, ok := r.info.Types[x.Args[0]]; ok && tv.Type != nil {
+							if _, isMap := tv.Type.Underlying().(*types.Map); isMap {
+								fn := map[string]string{"Keys": "SeqKeys", "Values": "SeqValues", "All": "SeqAll"}[sel.Sel.Name]
+								if fn != "" {
+									pos := r.fset.Position(x.Pos())
+									x.Fun = r.vs(fn)
+									x.Args = append(x.Args, &ast.BasicLit{Kind: token.STRING, Value: fmt.Sprintf("%q", fmt.Sprintf("%s:%d", filepath.Base(pos.Filename), pos.Line))})
+									r.site(x, "maps."+sel.Sel.Name)
+									r.dropMaps = true
+									r.mapsName = id.Name
+								}
+							}
 						}
 					}
 				}
